@@ -885,7 +885,13 @@ def _coalesce(fdef) -> None:
             if done:
                 break
         if not done:
-            return
+            break
+    # x = x left behind by two-step coalescing
+    for block in _blocks(fdef):
+        for st in list(block):
+            if isinstance(st, ast.Assign) and len(st.targets) == 1 and isinstance(st.targets[0], ast.Name) and isinstance(st.value, ast.Name) \
+                    and st.targets[0].id == st.value.id and len(block) > 1:
+                block.remove(st)
 
 
 KNOWN_GLOBALS = os.path.join(os.path.dirname(os.path.abspath(__file__)), "known_globals.txt")
